@@ -206,7 +206,7 @@ def dst_adjacent(draw):
     import pytz
     z = draw(st.sampled_from(DST_ZONES))
     tt = [t for t in getattr(pytz.timezone(z), "_utc_transition_times", []) if 1971 <= t.year <= 2036]
-    t = tt[draw(st.integers(0, len(tt) - 1))] + dt.timedelta(hours=draw(st.integers(-30, 30)), minutes=draw(st.sampled_from([0, 30])))
+    t = draw(st.sampled_from(tt)) + dt.timedelta(hours=draw(st.integers(-30, 30)), minutes=draw(st.sampled_from([0, 30])))
     return [t.year, t.month, t.day, t.hour, t.minute, 0, 0], z
 
 
@@ -315,10 +315,10 @@ def strings(draw):
         pats = data.relative_patterns(data.raw_info(lang))
         if pats:
             from checks import c06
-            key, pat = pats[draw(st.integers(0, len(pats) - 1))]
+            key, pat = draw(st.sampled_from(pats))
             outs = c06.instantiate(pat, str(draw(st.sampled_from([0, 1, 2, 30, 120, 5000]))))
             if outs:
-                return outs[draw(st.integers(0, len(outs) - 1))][:100], "soup"
+                return draw(st.sampled_from(outs))[:100], "soup"
     if k <= 7:
         if draw(st.booleans()):
             # "residue" strings: once the library has popped the zone / dropped skip words there is little or nothing left
@@ -350,7 +350,7 @@ def lang_kwargs(draw):
         return kw
     if k <= 8:
         locs = data.all_locales()
-        loc, lang = locs[draw(st.integers(0, len(locs) - 1))]
+        loc, lang = draw(st.sampled_from(locs))
         return {"locales": [loc]}
     n = draw(st.integers(1, 2))
     langs = draw(st.lists(st.sampled_from(order[:40]), min_size=n, max_size=n, unique=True))
